@@ -16,9 +16,10 @@ var DefaultCollate = "binary"
 var CollateFuncs = map[string]func(string, string) int{
 	"binary": strings.Compare,
 	"rtrim": func(a, b string) int {
+		// SQLite's RTRIM ignores trailing spaces only
 		return strings.Compare(
-			strings.TrimRight(a, " \t\r\n"),
-			strings.TrimRight(b, " \t\r\n"),
+			strings.TrimRight(a, " "),
+			strings.TrimRight(b, " "),
 		)
 	},
 	"nocase": func(a, b string) int {
